@@ -66,6 +66,8 @@ def main(tier_):
     for sc in scs:
         if sc["name"].startswith(("badfd", "open_root")):
             continue
+        if quick and "callerflags" in sc["name"]:
+            continue        # (the same operations as open-*/proc-* with other caller flags: a C05 subject; thorough tier only here)
         for fname, feat in feats:
             for cold in (False, True):
                 if cold and not (sc["name"].startswith(("lookup-ok", "reopen", "proc", "mkdir_all")) and sc["name"].endswith("-rust")):
